@@ -392,6 +392,32 @@ func main() {
 				case *ast.IfStmt:
 					if x.Cond != nil {
 						emit("negate-if", x.Cond.Pos(), x.Cond.End(), "!("+string(src[off(x.Cond.Pos()):off(x.Cond.End())])+")")
+						// the branch never / always taken, written without the test (a dropped check, an unconditional early return):
+						// the condition is still evaluated into the blank identifier so that its operands stay used
+						cond := string(src[off(x.Cond.Pos()):off(x.Cond.End())])
+						init := ""
+						if x.Init != nil {
+							init = string(src[off(x.Init.Pos()):off(x.Init.End())]) + "\n"
+						}
+						body := string(src[off(x.Body.Lbrace)+1 : off(x.Body.Rbrace)])
+						els := ""
+						if x.Else != nil {
+							if eb, isB := x.Else.(*ast.BlockStmt); isB {
+								els = string(src[off(eb.Lbrace)+1 : off(eb.Rbrace)])
+							} else {
+								els = string(src[off(x.Else.Pos()):off(x.Else.End())])
+							}
+						}
+						emit("if-never", x.Pos(), x.End(), "{\n"+init+"_ = "+cond+"\n"+els+"\n}")
+						emit("if-always", x.Pos(), x.End(), "{\n"+init+"_ = "+cond+"\n"+body+"\n}")
+					}
+				case *ast.SliceExpr:
+					// a bound dropped: x[a:b] -> x[a:] / x[:b]
+					if x.High != nil && !x.Slice3 {
+						emit("slice-open-high", x.High.Pos(), x.High.End(), "")
+					}
+					if x.Low != nil {
+						emit("slice-open-low", x.Low.Pos(), x.Low.End(), "")
 					}
 				case *ast.ExprStmt:
 					if _, ok := x.X.(*ast.CallExpr); ok {
